@@ -389,6 +389,8 @@ def run(ctx):
     ctx.replayed = gradpattern.replay(ctx, ["solve_ivp"], "ivpadj")
     from vlib import objstate
     ctx.replayed += objstate.replay(ctx, ["solve_ivp"], "ivpadj")
+    from vlib import bwdreuse
+    ctx.replayed += bwdreuse.replay(ctx, ["solve_ivp"], "ivpadj", sample=(120 if ctx.tier == "thorough" else 20))
     from vlib import bckhistory
     ctx.replayed += bckhistory.replay(ctx, ["solve_ivp"], "ivpadj", 3)
     ctx.samples.append(traces[0])
